@@ -166,22 +166,42 @@ def run(chk):
     cfgX, cfgY = tok("c14_X", "lsn", SMALL), tok("c14_Y", "cdn", dict(corpus.CDN, nx_core=3, nx_sol=3, y_boundary_guards=1), sign=-1.0)
     cfgZ = tok("c14_Z", "lsn", dict(SMALL, reverse_current=True))
     path = os.path.join(tmp, "h.pkl")
-    rc, r, log = impl("history", dict(cfgs=[cfgX, cfgY, cfgZ, cfgX], out=path), 2400)
+    # W leaves the spacing lengths to their defaults (which are expressions of other options, evaluated per build) on a non-orthogonal grid: it is built FIRST, in a
+    # fresh interpreter, and again LAST, after builds that set those options
+    no = {k: v for k, v in SMALL.items() if k not in ("target_all_poloidal_spacing_length", "xpoint_poloidal_spacing_length")}
+    # (target_all_poloidal_spacing_length explicitly None: for a non-orthogonal grid its default would be 1.0; with None the non-orthogonal target
+    # spacing falls back to ITS default, which the Equilibrium constructor sets per build)
+    cfgW = tok("c14_W", "lsn", dict(no, orthogonal=False, y_boundary_guards=0, target_all_poloidal_spacing_length=None))
+    rc, r, log = impl("history", dict(cfgs=[cfgW, cfgX, cfgY, cfgZ, cfgX, cfgW], out=path), 2400)
     if r is None or not os.path.exists(path):
         chk.tie_broken("impl/provenance.py:history", f"rc={rc}: {log}")
     else:
         with open(path, "rb") as f:
             H = pickle.load(f)
-        for k, v in H[0].items():
-            for loc, a in v.items():
-                b = H[3][k][loc]
-                n += a.size
-                if not np.array_equal(a, b, equal_nan=True):
-                    chk.fail("history-dependence", "the same grid built again in one interpreter after other builds differs", {"sequence": ["lsn", "cdn (psi reversed)", "lsn with reverse_current", "lsn"], "field": k, "loc": loc, "max_difference": float(np.nanmax(np.abs(a - b)))})
+        seq = ["W: lsn non-orthogonal, spacing lengths left to their defaults", "X: lsn", "Y: cdn (psi reversed)", "Z: lsn with reverse_current", "X", "W"]
+        for (i0, i1, nm) in ((1, 4, "X"), (0, 5, "W")):
+            o0, o1 = H[i0].get("__options__", {}), H[i1].get("__options__", {})
+            od = {k: (o0.get(k), o1.get(k)) for k in sorted(set(o0) | set(o1)) if o0.get(k) != o1.get(k)}
+            n += len(o0)
+            if od:
+                chk.fail("history-dependence:evaluated-options", "the evaluated option set of the same build differs when it is repeated in one interpreter after other builds",
+                         {"sequence": seq, "build": nm, "options_first_vs_repeated": dict(list(od.items())[:8]), "number_differing": len(od)})
+            for k, v in H[i0].items():
+                if k == "__options__":
+                    continue
+                bad = False
+                for loc, a in v.items():
+                    b = H[i1][k][loc]
+                    n += a.size
+                    if not np.array_equal(a, b, equal_nan=True):
+                        chk.fail("history-dependence", "the same grid built again in one interpreter after other builds differs", {"sequence": seq, "build": nm, "field": k, "loc": loc, "max_difference": float(np.nanmax(np.abs(a - b)))})
+                        bad = True
+                        break
+                if bad:
                     break
     shutil.rmtree(tmp, ignore_errors=True)
     chk.count(evaluations=n, distinct=n)
     chk.cov["rule"] = ("constructor on caller-owned arrays: 2 families x both signs x 5 option sets, three constructions each (arrays, wall list, psi_axis, psi_bdry, Bt_axis, psi, fpol); "
                        "command-line round trips (geqdsk written with hypnotoad's writer -> hypnotoad-geqdsk twice -> hypnotoad-recreate-inputs -> hypnotoad-geqdsk) for option sets incl. sign options, "
-                       "defaults that are expressions, a YAML file with an expr: option: every numeric variable bit-identical, only grid_id / versions / file name differ; one interpreter building X, Y, Z, X")
+                       "defaults that are expressions, a YAML file with an expr: option: every numeric variable bit-identical, only grid_id / versions / file name differ; one interpreter building W, X, Y, Z, X, W (W: defaults that are expressions, non-orthogonal): arrays and evaluated option sets")
     chk.notes["roundtrips"] = summary
